@@ -52,5 +52,17 @@ MCMulti == { <<R("qps", 2, 1, FALSE), R("conc", 2, 1, FALSE)>>,
              <<R("load", 0, 1, TRUE), R("cpu", 0, 4, TRUE)>> }
 MCRuleListsPlus == MCRuleLists \cup MCMulti
 
+\* --- spec-level mutants of the completion bookkeeping (cfg: CompleteUpd <- Mut...): each must be rejected ---
+\* "failed invocations do not pollute the RT statistics": a completion with an error skips the response time
+MutErrSkipsRt(r, t, rt, b, err) ==
+    IF err THEN RefAdd(RefAdd(r, GKinds, GPBL, t, "complete", b), GKinds, GPBL, t, "error", b)
+           ELSE OnComplete(r, t, rt, b)
+\* a completion with an error is counted as an error only (not as a completion)
+MutErrSkipsComplete(r, t, rt, b, err) ==
+    IF err THEN RefAdd(RefAdd(r, GKinds, GPBL, t, "rt", rt), GKinds, GPBL, t, "error", b)
+           ELSE OnComplete(r, t, rt, b)
+\* the error flag of a completion is lost (ErrOK)
+MutErrDropped(r, t, rt, b, err) == OnComplete(r, t, rt, b)
+
 Emit == PrintT(ToJson(h'))
 =============================================================================
